@@ -1,6 +1,6 @@
 (* C03: collateral is conserved.  Statements only. *)
 From MP.Model Require Import Prelude U128 SInt Feed Vamm VammOps Token World Engine Runtime.
-From MP.Proofs Require Import Tactics RuntimeFacts LedgerFacts.
+From MP.Proofs Require Import Tactics RuntimeFacts LedgerFacts PartiesFacts Scenario.
 
 (* the two ledger primitives (cw20 Transfer / bank Send, cw20 TransferFrom) move, never mint or burn *)
 Theorem C03_move_conserves : forall t from to amt t', tok_move t from to amt = Ok t' ->
@@ -45,3 +45,35 @@ Theorem C03_history_conserves : forall ops w,
   forallb (fun o => negb (is_mint o)) ops = true -> wtotal (run w ops) = wtotal w.
 Proof. exact run_total. Qed.
 Print Assumptions C03_history_conserves.
+
+(* END TO END, second clause.  Whatever the engine message (open, close, liquidate, pay funding, deposit,
+   withdraw, configuration), whatever the fault index: a successful engine transaction started from a state
+   with no in-flight records leaves the balance of every account other than its sender, the engine, the
+   insurance fund (its address, its configured address, its beneficiary) and the fee pool exactly as it was -
+   in particular the liquidated trader's, bystanders' and the liquidator's counterparties'. *)
+Theorem C03_engine_tx_touches_only_its_parties : forall f w s m funds w' a,
+  exec_op f w (OEngine s m funds) = Ok w' ->
+  e_tmp (w_eng w) = None -> e_liq (w_eng w) = None ->
+  a <> s -> a <> A_ENGINE -> a <> A_IFUND -> a <> if_engine (w_if w) ->
+  a <> e_ifund (ec (w_eng w)) -> a <> e_feepool (ec (w_eng w)) ->
+  bal (w_tok w') a = bal (w_tok w) a.
+Proof. exact engine_tx_parties. Qed.
+Print Assumptions C03_engine_tx_touches_only_its_parties.
+
+(* non-vacuity: in the concrete scenario the state has no in-flight records and a liquidation by account 31
+   of trader 22 succeeds; trader 22 and trader 21 are such outsiders *)
+Definition c03_example : bool :=
+  match scenario with
+  | Ok w0 =>
+      let w := run w0 [OEngine 1 (EUpdateConfig None None None (Some 900000) (Some 900000) None None) 0] in
+      match e_tmp (w_eng w), e_liq (w_eng w), exec_op (-1) w (OEngine 31 (ELiquidate 11 22 0) 0) with
+      | None, None, Ok w' =>
+          let outsider a := negb (a =? 31) && negb (a =? A_ENGINE) && negb (a =? A_IFUND) && negb (a =? if_engine (w_if w)) &&
+                            negb (a =? e_ifund (ec (w_eng w))) && negb (a =? e_feepool (ec (w_eng w))) in
+          outsider 22 && outsider 21 && negb (bal (w_tok w') 31 =? bal (w_tok w) 31)
+      | _, _, _ => false
+      end
+  | Err _ => false
+  end.
+Example C03_nonvacuous : c03_example = true.
+Proof. vm_compute. reflexivity. Qed.
